@@ -225,10 +225,21 @@ def run(st, tier, seed):
                 lens[k] = lens[stack.pop()]
             elif c == ".":
                 lens[k] = rng.randint(0, 6)
-        broken = rng.random() < 0.3 and "(" in d
+        broken = rng.random() < 0.4 and "(" in d
         if broken:
-            k = rng.choice([k for k, c in enumerate(d) if c in "()"])
-            lens[k] += rng.randint(1, 3)
+            closes = [k for k, c in enumerate(d) if c == ")"]
+            opens = [k for k, c in enumerate(d) if c == "("]
+            if rng.random() < 0.5 and len(closes) >= 2:
+                # lengths that cancel overall: exchange the lengths of two closing (or two opening) domains
+                ks = rng.sample(closes if rng.random() < 0.5 else opens, 2)
+                if lens[ks[0]] == lens[ks[1]]:
+                    lens[ks[0]] += rng.randint(1, 3)
+                    lens[[k for k in (opens + closes) if k not in ks][0] if len(opens + closes) > 2 else ks[1]] += 0
+                lens[ks[0]], lens[ks[1]] = lens[ks[1]], lens[ks[0]]
+                res.count("domain-level:lengths-exchanged")
+            else:
+                k = rng.choice(opens + closes)
+                lens[k] += rng.randint(1, 3)
         segs = d.split("+")
         doms, pos = [], 0
         for sg in segs:
